@@ -140,6 +140,17 @@ theorem generated_int_types_roundtrip :
   rw [h4]
   exact json_roundtrip_intN e.nameWidth h5 (by omega) v hlo hhi
 
+/-- the big.Int based generated types (Uint128 … Int257, VarUInteger 1..32): `"%s"` of i.String() printed, parsed by
+big.Int.SetString(Trim, 10) — the model's printBig / parseBigJson, which round-trip for every integer -/
+theorem generated_big_types_roundtrip :
+    ∀ e ∈ TongoGen.IntJson.table, e.family = .big →
+      e.fmtCode = 2 ∧ e.parseCode = 3 ∧ e.base = 10 ∧ e.trimOK = true ∧ ∀ v : Int, parseBigJson (printBig v) = .ok v := by
+  intro e he hf
+  have hwf := List.all_eq_true.mp TongoGen.IntJson.table_wf e he
+  simp only [GenType.wf, hf, Bool.and_eq_true, beq_iff_eq] at hwf
+  obtain ⟨ht, ⟨⟨h1, h2⟩, h3⟩⟩ := hwf
+  exact ⟨h1, h2, h3, ht, json_roundtrip_big⟩
+
 /-- the table covers every width 1..64 in both signednesses (no generated type escapes the obligation) -/
 theorem generated_widths_complete :
     ∀ w, 1 ≤ w → w ≤ 64 →
@@ -166,6 +177,18 @@ theorem json_bitsN_wrong_length (n : Nat) (bs : List UInt8) (h : bs.length ≠ n
   unfold parseBitsN printBitsN
   rw [trimQuote_quote _ (fun c hc => lowerHex_ne c '"' (hexLower_chars bs c hc) (by decide)), decodeChars_hexLower]
   simp [h]
+
+/-- the byte-array generated types (Bits80 … Bits512): `"%x"` printed, hex.DecodeString(Trim) parsed, and the length
+check is the one of the type's name — every value of that length round-trips -/
+theorem generated_bits_types_roundtrip :
+    ∀ e ∈ TongoGen.IntJson.table, e.family = .bits →
+      e.fmtCode = 3 ∧ e.parseCode = 4 ∧ e.trimOK = true ∧ e.bitSize = e.nameWidth ∧ e.nameWidth = 8 * e.kindWidth ∧
+      ∀ bs : List UInt8, bs.length = e.kindWidth → parseBitsN e.kindWidth (printBitsN bs) = .ok bs := by
+  intro e he hf
+  have hwf := List.all_eq_true.mp TongoGen.IntJson.table_wf e he
+  simp only [GenType.wf, hf, Bool.and_eq_true, beq_iff_eq] at hwf
+  obtain ⟨ht, ⟨⟨⟨h1, h2⟩, h3⟩, h4⟩⟩ := hwf
+  exact ⟨h1, h2, ht, h3, h4, fun bs hb => json_roundtrip_bitsN _ bs hb⟩
 
 /-- ton.Bits256 (`"%x"` / `fmt.Fscanf("\"%x\"")`): every 32-byte value parses back -/
 theorem json_roundtrip_bits256 (bs : List UInt8) (h : bs.length = 32) :
@@ -260,6 +283,26 @@ theorem msgaddress_var_lookalike (b : List Bool) (hb : b = List.replicate 256 fa
   rw [parseMsgAddr_parts 0 _ (toFift_no _ ':' (by decide) (by decide)) (toFift_no _ '"' (by decide) (by decide)) none
     (by intro a h; cases h), e]
   exact parseAddrBody_std none 0 _ (by decide) (by decide) rfl
+
+/-! ## wrappers around codecs owned by other slices -/
+
+/-- boc.Cell / tlb.Any (`"` + BOC hex + `"`, parsed after Trim): the JSON form round-trips whenever the inner text
+codec does (C01 for BOC hex — hypothesis `hrt`, exercised on the Go side by `go.json.rt cell …`) and its text
+contains no quote character -/
+theorem json_roundtrip_wrapped {α} (toText : α → Str) (ofText : Str → Outcome α) (v : α)
+    (hrt : ofText (toText v) = .ok v) (hq : ∀ c ∈ toText v, c ≠ '"') :
+    parseTrimmed ofText (printWrapped toText v) = .ok v := by
+  unfold parseTrimmed printWrapped
+  rw [trimQuote_quote _ hq, hrt]
+
+/-- ton.AccountID (json.Marshal of the raw form, json.Unmarshal into a string, then the address parser): round-trips
+whenever the raw-form parser does (C17, hypothesis `hrt`) and the raw form needs no JSON escapes -/
+theorem json_roundtrip_via_string {α} (toText : α → Str) (ofText : Str → Outcome α) (v : α)
+    (hrt : ofText (toText v) = .ok v) (hs : ∀ c ∈ toText v, isSafe c = true) :
+    parseViaString ofText (printWrapped toText v) = .ok v := by
+  unfold parseViaString printWrapped
+  rw [unmarshalString_quote _ hs]
+  exact hrt
 
 /-! ## validity of the emitted JSON, totality of the parsers -/
 
